@@ -260,7 +260,7 @@ def flatten_consumption_case(N, select_owner):
 
 
 def cases(tier, seed):
-    N = 2 if tier == "quick" else 3
+    N = 2 if tier == "quick" else 4
     cs = []
     seen = set()
     # (a) construction: every C01 shape (one selection each)
@@ -306,7 +306,7 @@ def describe(tier):
         "(b) data symbolic, k symbolic: pull k results and stop; they are a prefix of the full result list of a fresh identical query, the outermost lazy domain "
         "was advanced exactly to the element that produced the k-th result (no read-ahead), nothing at all is consumed before the first next(), and a second "
         "evaluation started after abandoning the first is demand driven too; flatten(x.kids) over an attribute that is itself a one-shot generator is read exactly up to the element that produced the last pulled result. non-trivial = >= 2 feasible paths and a non-empty result",
-        bounds=dict(objects_per_domain="<= 3 (quick) / <= 4 (thorough) for one-variable shapes, <= 2/3 for two-variable shapes", values="unbounded integers", k="0..all+1"),
+        bounds=dict(objects_per_domain="<= 3 (quick) / <= 5 (thorough) for one-variable shapes, <= 2/4 for two-variable shapes", values="unbounded integers", k="0..all+1"),
         outside=["consumption of inner (non-outermost) domains beyond 'nothing before the first next()'", "laziness of ORM/SQL evaluation"],
         assumptions=["the engine's loop order puts x outermost for the shapes of part (b) (x is the left-most variable)"],
     )
